@@ -10,8 +10,8 @@ SPECIAL = [0x00, 0x0a, 0x0d, 0x20, 0x22, 0x27, 0x3b, 0x5c, 0x7e, 0x7f, 0x80, 0xf
 N_SINGLE = 16
 N_LEN = 41
 TIERS = {
-    'quick': {'cases': N_SINGLE + N_LEN + len(SPECIAL) * 3 + 120, 'wall': 100, 'chunk': 4},
-    'thorough': {'cases': N_SINGLE + N_LEN + 512 + len(SPECIAL) + 4000, 'wall': 900, 'chunk': 8},
+    'quick': {'cases': N_SINGLE + N_LEN + len(SPECIAL) * 3 + 4 + 120, 'wall': 100, 'chunk': 4},
+    'thorough': {'cases': N_SINGLE + N_LEN + 512 + len(SPECIAL) + 4 + 4000, 'wall': 900, 'chunk': 8},
 }
 RULE = ('fixed jobs: each of the 256 byte values as a one-byte string, as a character literal (as an '
         'immediate and stored in a variable), and at the first/middle/last position of a longer string; '
@@ -20,7 +20,8 @@ RULE = ('fixed jobs: each of the 256 byte values as a one-byte string, as a char
         'pairs); constant int/byte/bool/string arrays of every length 0..40 as const global, mutable '
         'global, const local and mutable local; for each special byte, tables of 60 and 97 elements in which it sits '
         'at every / every even / every odd position (byte, int, string forms: wherever a long data line is broken, '
-        'it is there). seeded jobs: random strings up to 64 bytes and random '
+        'it is there); string literals of 32767 (the longest a 16-bit length can hold: must work) and 32768 / 40000 / '
+        '65541 bytes (must be rejected). seeded jobs: random strings up to 64 bytes and random '
         'constant arrays, rendered with seeded literal spellings (raw, \\xHH, named escapes, \\u{..}, '
         'hex/octal/binary integers). Each program writes the constant, indexes every position and prints '
         '.length. oracle: the strict SVM assembler accepts the output; committed output equals the '
@@ -145,6 +146,16 @@ def runs_prog(b):
     return prog(glob, dumps + [func('empty', '@is_you', [], *body)])
 
 
+LONGSTR = (32767, 32768, 40000, 65541)
+
+
+def longstr_prog(n):
+    text = ('0123456789abcdef' * (n // 16 + 1))[:n]
+    body = [decl('string', 's', ('str', text)), write(ln('s')), write(C(' ')), write(idx('s', I(n - 1))), write(C(' ')),
+            write(idx('s', I(1))), write(C(' ')), write(is_(V('s'), 'bool'))]
+    return prog([], [func('empty', '@is_you', [], *body)])
+
+
 def random_string_prog(rnd):
     body = []
     for _ in range(rnd.randrange(1, 6)):
@@ -181,6 +192,10 @@ def job(seed, idx, tier):
     idx4 = idx3 - npairs
     if idx4 < len(SPECIAL):
         return f'runs byte={SPECIAL[idx4]:#x}', runs_prog(SPECIAL[idx4]), W, rnd
+    idx5 = idx4 - len(SPECIAL)
+    if idx5 < len(LONGSTR):
+        # a string literal as long as / longer than the largest length a 16-bit word can hold
+        return f'longstr {LONGSTR[idx5]}', longstr_prog(LONGSTR[idx5]), 2, rnd
     if rnd.random() < 0.3:
         return 'random arrays', arrays_prog(rnd, rnd.randrange(0, 12), W), W, rnd
     return 'random strings', random_string_prog(rnd), W, rnd
@@ -189,6 +204,24 @@ def job(seed, idx, tier):
 def case(seed, idx, tier):
     label, p, W, rnd = job(seed, idx, tier)
     res = common.new_result()
+    if label.startswith('longstr') and int(label.split()[1]) > 32767:
+        # no 16-bit length word can hold this length: the only right answer is a compile-time rejection
+        from .. import render
+        from ..runner import build
+        src = render.program(p)
+        b = build(src, W=2, stack=400)
+        res['key'] = digest(label)
+        res['nontrivial'] = True
+        res['counters']['job_longstr'] = 1
+        res['outcomes']['longstr:' + ('rejected' if b.error_kind == 'rejected' else 'accepted' if b.prog is not None else str(b.error_kind))] = 1
+        res['digest'] = digest(label, b.error_kind)
+        if b.error_kind != 'rejected':
+            res['violations'].append({'cls': 'history' if b.prog is not None else 'internal-error',
+                                      'detail': f'{label}: a string literal longer than the largest 16-bit length was '
+                                                f'{"accepted (its length word cannot be right)" if b.prog is not None else "not diagnosed: " + str(b.error)}',
+                                      'fingerprint': None, 'payload': {'longstr': int(label.split()[1])},
+                                      'sample': {'source': src[:200] + ' ...'}})
+        return res
     cfg = dict(W=W, stack=400, style_seed=(None if idx % 3 == 0 else rnd.randrange(1 << 30)), max_steps=4_000_000)
     found, ev = common.problems_of(p, [], cfg)
     common.add_counters(res, ev)
@@ -220,6 +253,11 @@ def finalize(cov, agg):
 
 
 def replay(pl):
+    if 'longstr' in pl:
+        from .. import render
+        from ..runner import build
+        b = build(render.program(longstr_prog(pl['longstr'])), W=2, stack=400)
+        return [] if b.error_kind == 'rejected' else [{'cls': 'history', 'detail': 'over-long string literal accepted', 'fingerprint': None}]
     out = common.generic_replay(pl)
     if pl.get('extra', {}).get('file_path') or not out:
         src = pl.get('src')
